@@ -29,4 +29,12 @@ CHECKS = {
    technique='exhaustive small-scope enumeration of constructor argument combinations (<=3 candidate states, all relations, S/S0/L variants, all V) + Hypothesis random 4-5 states; oracle = constructor contract and induced-substructure definition',
    text='Kripke(S,S0,R,L) is built for every relation over <=3 candidate states combined with S/S0/L variants (None, subsets, outsiders, list/set/tuple values, non-string labels); success must coincide with totality (RuntimeError otherwise); every built structure is inspected (labels are sets, defaults empty, S0 intersected, non-states raise RuntimeError), cloned with mutation on both sides, and get_substructure(V) is checked for every V against the induced structure, incl. no shared label sets.',
    note='Trusted: none beyond set arithmetic. None as a state is excluded (labels(None) means the whole structure). V is always passed as a set (the documented type).'),
+ 'C17': dict(
+   technique='exhaustive enumeration (all 256 functions of 3 variables x 6 orderings x all ordered pairs x {&,|,^}, ~, every restrict) + Hypothesis random 4-variable functions under the 24 orderings; oracle = truth tables on all assignments + structural walk',
+   text='Every result diagram is walked on every assignment and compared with the pointwise operation on the operand truth tables; every reachable node must test a variable strictly earlier than its children and have distinct children; variables() must equal the variables on reachable nodes and the semantic support; in the enumerated scope the result must be the identical node of the separately parsed function; RuntimeError exactly for different orderings or outside variables (equal lists in different objects must not raise).',
+   note='Trusted: truth-table arithmetic in vp/bdd.py. restrict() of a variable outside the ordering is not asserted (the property is silent).'),
+ 'C18': dict(
+   technique='exhaustive enumeration of expressions (<=2/3 operators over a,b,c,0,1 x all argument orders) + Hypothesis random expressions depth<=4 over identifier pools + generated non-Boolean programs; oracles = cross-notation equality, print/parse round trip, truth table, exception class',
+   text='OBDD(expr, args) and OBDD("lambda args: expr") must be equal (== and same root) and denote the harness-computed truth table for every style (&|~, and/or/not, mixed) and argument order; OBDD(str(o.root), o.ordering) and OBDD(str(o)) must give back o; a missing variable must raise RuntimeError and ~100 kinds of generated non-Boolean programs SyntaxError.',
+   note="Trusted: vp/bdd.py truth tables (cross-checked with Python eval). '^' in strings, integral floats and complex zero are in neither class."),
 }
